@@ -150,7 +150,7 @@ class C14(Prop):
                             'a = x; b = a and y; out = b or a;', 'always[0,kk] x', 'always[1,0] x', 'once[2s,1000ms] x',
                             'once[1001ms,1s] x', 'out = (x.val >= 1)', 'x.val >= 1', 'out.val = (x >= 1)',
                             'float x\nout = (x.numer >= 1)', 'out = ((y.a.b <= 2) and (x.real >= 0))'])
-            return {'type': 'parse', 'text': t, 'declared': ['x', 'y'], 'mutated': True, 'again': rng.choice([0, 1, 2])}
+            return {'type': 'parse', 'text': t, 'declared': ['x', 'y'], 'mutated': True, 'again': rng.choice([0, 1, 2, 5])}
         t = self.valid_text(rng)
         mutated = rng.random() < 0.8
         if mutated:
@@ -158,7 +158,7 @@ class C14(Prop):
             if rng.random() < 0.2:
                 t = self.mutate(rng, t)
         return {'type': 'parse', 'text': t, 'declared': rng.choice([['x', 'y', 'z'], ['x'], []]), 'mutated': mutated,
-                'const': rng.random() < 0.3, 'again': rng.choice([0, 0, 0, 1, 2, 3, 4])}
+                'const': rng.random() < 0.3, 'again': rng.choice([0, 0, 0, 1, 2, 3, 4, 5, 5])}
 
     def gen_undeclared(self, rng):
         c = lang.GenCfg(vars=['x', 'y', 'z'], max_depth=rng.choice([1, 2, 3]), future=rng.random() < 0.5, max_bound=3)
@@ -317,6 +317,20 @@ class C14(Prop):
         try:
             if k == 1:
                 label, want = 'second parse() of the same text', accepted
+            elif k == 5:
+                # another illegal text, whose (only) error lies far behind anything the first text contained - at the
+                # very end of a long line, or some lines further down: it is illegal whatever the object saw before
+                pad = ' ' * (len(text) % 7)
+                other = [
+                    'out = ((x >= 1) and ((y >= 1) or (z <= 2)) and (always[0,2] (x >= 0)) and ((y >= 1)' + pad,
+                    'out = ((x >= 1) and ((y >= 1) or (z <= 2)) and (once[0,2] (x >= 0))) and (y # 1)',
+                    'out = (x >= 1)\n\n\n  and ((y >= 1)\n or (z <= 2)\n and (x <= 3)',
+                    'out = (((x >= 1)))\n\n\n\n\n and (y >= 1) (z <= 2)',
+                    'out = ((x >= 1) and ((y >= 1) or (z <= 2)) and (historically[0,2] (x >= 0)))) ' + pad,
+                    'out = ((x >= 1) and ((y >= 1) or (z <= 2)) and (x <= 3) and (y <= 3) and (z >= 0)) and (y >= ?)',
+                ][(len(text) + case.get('seq', 0)) % 6]
+                m.spec.spec = other
+                label, want = 'parse() after the text was replaced by the illegal text %r' % other, False
             else:
                 other = 'out = ((x >= 1) and' if accepted else 'out = (once[0,1] (x >= 1))'
                 m.spec.spec = other
